@@ -82,7 +82,7 @@ fn gen_ann(ch: &mut Choices, n: usize) -> Ann {
     }
 }
 
-fn gen_case(ch: &mut Choices) -> Case {
+pub fn gen_case(ch: &mut Choices) -> Case {
     let n = 3 + ch.below(3);
     let nb = 1 + ch.below(8);
     let mut batches = vec![];
@@ -140,7 +140,7 @@ fn snapshot(book: &AddrBook) -> BTreeMap<validator::PublicKey, Arc<validator::Si
     book.current().into_iter().map(|e| (e.key.clone(), e)).collect()
 }
 
-fn check(case: &Case, st: &mut Stats) -> Result<(), String> {
+pub fn check(case: &Case, st: &mut Stats) -> Result<(), String> {
     det::run(|| async {
         let spec = CommitteeSpec::uniform(case.n);
         let c = spec.build();
@@ -233,7 +233,7 @@ pub struct ConvCase {
     sizes_b: Vec<usize>,
 }
 
-fn gen_conv(ch: &mut Choices) -> ConvCase {
+pub fn gen_conv(ch: &mut Choices) -> ConvCase {
     let n = 3 + ch.below(3);
     let k = 1 + ch.below(10);
     let mut anns: Vec<Ann> = vec![];
@@ -251,7 +251,7 @@ fn gen_conv(ch: &mut Choices) -> ConvCase {
     ConvCase { n, anns, order_a: ch.perm(m), sizes_a: sizes(ch), order_b: ch.perm(m), sizes_b: sizes(ch) }
 }
 
-fn check_conv(case: &ConvCase, st: &mut Stats) -> Result<(), String> {
+pub fn check_conv(case: &ConvCase, st: &mut Stats) -> Result<(), String> {
     det::run(|| async {
         let c = CommitteeSpec::uniform(case.n).build();
         let mut books = vec![];
